@@ -574,8 +574,11 @@ const _: () = {
             if self.section.is_empty() {
                 return Ok(None)
             }
-            if !self.first && self.section.first() == Some(&b',') {
-                return Err(serde::de::Error::custom("missing ,"))
+            if !self.first {
+                match self.section.split_first() {
+                    Some((b',', rest)) => self.section = rest,
+                    _ => return Err(serde::de::Error::custom("missing ,"))
+                }
             }
             self.first = false;
 
@@ -583,7 +586,8 @@ const _: () = {
             let (element, remaining) = self.section.split_at(size);
             self.section = remaining;
 
-            seed.deserialize(element.into_deserializer()).map(Some)
+            /* an element is a value: percent-decoded if a string, parsed if a number */
+            seed.deserialize(&mut URLEncodedDeserializer { input: element, side: ParsingSide::Value }).map(Some)
         }
     }
 };
